@@ -482,6 +482,21 @@ func groupNoCopy() {
 	t.add("W", binary(), 3, "default", "nocopy")
 }
 
+// optional-pointer forms of string and binary, copied and nocopy (C14: "in both its plain and
+// optional-pointer forms"; a `*[]byte` must come back as a well-formed slice: D12)
+func groupPtrBinary() {
+	s := newStruct("ptrbinary")
+	s.add("PB", ptr(binary()), 1, "optional")
+	s.add("PBN", ptr(binary()), 2, "optional", "nocopy")
+	s.add("PS", ptr(prim("string")), 3, "optional")
+	s.add("PSN", ptr(prim("string")), 4, "optional", "nocopy")
+	s.add("B", binary(), 5, "default", "nocopy")
+	t := newStruct("ptrbinary")
+	t.add("In", ptr(sref(s)), 1, "optional")
+	t.add("L", list(ptr(sref(s))), 2, "default")
+	t.add("PB", ptr(binary()), 3, "optional", "nocopy")
+}
+
 // writer / reader evolution pairs with holders
 func groupEvolution() {
 	w := newStruct("evolution")
@@ -1155,6 +1170,7 @@ func main() {
 	groupIDs()
 	groupByValue()
 	groupNoCopy()
+	groupPtrBinary()
 	groupEvolution()
 	groupSpellings()
 	groupInvalid()
